@@ -476,7 +476,28 @@ def generate(repo):
             raise Untranslatable('the batched and the scalar call sites differ')
         return rs[0]
 
+    NORMALISATIONS = {'polarization': ('polarization.lower()', 'str.lower(polarization)'),
+                      'aoi': ('np.radians(aoi)', 'np.deg2rad(aoi)'),
+                      'stack': ('np.asarray(stack)', 'np.array(stack)', 'np.asanyarray(stack)')}
+
+    def params_not_rebound():
+        """the role-based call-site items read parameter NAMES; they are only meaningful if the parameters of
+        multilayer_stack_rt (wavelength, ambient_index, aoi, polarization, stack) still hold the caller's values there:
+        the only re-bindings accepted are the top-level normalisations (lower-casing, degrees -> radians, asarray)"""
+        fn = stack_fn()
+        params = [a.arg for a in fn.args.args]
+        for st in ast.walk(fn):
+            names = set()
+            if isinstance(st, (ast.Assign, ast.AugAssign, ast.AnnAssign, ast.For, ast.With, ast.NamedExpr)):
+                names = _stored_names(st) if not isinstance(st, ast.NamedExpr) else {st.target.id}
+            for nm in names & set(params):
+                ok = isinstance(st, ast.Assign) and st in fn.body and len(st.targets) == 1 and isinstance(st.targets[0], ast.Name) \
+                    and ast.unparse(st.value).replace(' ', '') in [t.replace(' ', '') for t in NORMALISATIONS.get(nm, ())]
+                if not ok:
+                    raise Untranslatable(f'parameter {nm} is re-bound / modified: {ast.unparse(st)[:60]}')
+
     def stack_snell():
+        params_not_rebound()
         fn = stack_fn()
         calls = find_calls(fn, 'snell_aor')
         r = same_roles(calls, ['n0', 'n1', 'theta', 'degrees'])
@@ -498,6 +519,7 @@ def generate(repo):
            'def stackSnellSin (n0 s0 nj : K) : K := snellSin n0 nj s0\ndef stackAoiConvertedOnce : Bool := true')
 
     def stack_layer():
+        params_not_rebound()
         al = dispatch_aliases()
         out = []
         for pol, cname, bname in (('s', 'charS', 'betaS'), ('p', 'charP', 'betaP')):
@@ -523,6 +545,7 @@ def generate(repo):
            'def stackLayerP (mI sinb cosb cost d n : K) : M22 K := charP mI sinb cosb cost n')
 
     def stack_amat():
+        params_not_rebound()
         al = dispatch_aliases()
         out = []
         for pol in ('s', 'p'):
@@ -729,6 +752,52 @@ def generate(repo):
                 return False
         return True
     g.fact('stackNoInPlaceOnCallerData', SSRC, no_inplace_on_inputs)
+
+    def module_pure():
+        """no function of thinfilm.py applies an in-place operator, an element / slice store or a mutating method to one of its
+        parameters or to a local that may alias one (a subscript / attribute view, np.asarray, reshape, moveaxis, ravel, .T, .real,
+        or a plain alias of a parameter or of such a view).  False = recognised violation; the fact is about the WHOLE module."""
+        MUT = ('sort', 'fill', 'resize', 'itemset', 'put', 'partition', 'byteswap', 'setfield', 'clip')
+        VIEWFN = ('np.asarray', 'np.asanyarray', 'np.moveaxis', 'np.swapaxes', 'np.transpose', 'np.reshape', 'np.ravel', 'np.squeeze',
+                  'np.atleast_1d', 'np.atleast_2d', 'np.broadcast_to', 'np.real', 'np.imag', 'np.expand_dims')
+        for fn in [n for n in ast.walk(tf) if isinstance(n, ast.FunctionDef)]:
+            tainted = {a.arg for a in fn.args.args + fn.args.kwonlyargs}
+            if fn.args.vararg:
+                tainted.add(fn.args.vararg.arg)
+
+            def base(e):
+                while isinstance(e, (ast.Subscript, ast.Attribute)):
+                    e = e.value
+                if isinstance(e, ast.Call):
+                    f = ast.unparse(e.func)
+                    if f in VIEWFN and e.args:
+                        return base(e.args[0])
+                    if isinstance(e.func, ast.Attribute) and e.func.attr in ('reshape', 'view', 'ravel', 'squeeze', 'transpose', 'swapaxes'):
+                        return base(e.func.value)
+                    return None
+                return e.id if isinstance(e, ast.Name) else None
+            for _ in range(4):       # propagate aliases to a fixpoint (flow-insensitive: conservative)
+                for st in ast.walk(fn):
+                    if isinstance(st, ast.Assign) and len(st.targets) == 1 and isinstance(st.targets[0], ast.Name):
+                        b = base(st.value)
+                        is_view = isinstance(st.value, (ast.Name, ast.Subscript, ast.Attribute, ast.Call))
+                        if b in tainted and is_view and not (isinstance(st.value, ast.Subscript) and False):
+                            tainted.add(st.targets[0].id)
+            for st in ast.walk(fn):
+                if isinstance(st, ast.AugAssign) and base(st.target) in tainted:
+                    # `x op= v` on a NAME that was re-bound to a fresh array first is still flagged: conservative
+                    return False
+                if isinstance(st, ast.Assign):
+                    for t in st.targets:
+                        for tt in (t.elts if isinstance(t, (ast.Tuple, ast.List)) else [t]):
+                            if isinstance(tt, ast.Subscript) and base(tt) in tainted:
+                                return False
+                if isinstance(st, ast.Call) and isinstance(st.func, ast.Attribute) and st.func.attr in MUT and base(st.func.value) in tainted:
+                    return False
+                if isinstance(st, ast.Call) and any(k.arg == 'out' and base(k.value) in tainted for k in st.keywords):
+                    return False
+        return True
+    g.fact('thinfilmNoInPlaceOnParameters', 'prysm/thinfilm.py:(whole module)', module_pure)
 
     return g.finish()
 
